@@ -32,11 +32,18 @@ ALLOW = {"offd": F.ALL_DISCRETE_OFFLINE - {"fn"}, "ond": F.PAST_ONLY - {"fn"},
 REGIONS = {}
 
 
-def run_impl(mon, text, vs, data, n, sem, io, struct=(), extra_decl=()):
+def run_impl(mon, text, vs, data, n, sem, io, struct=(), extra_decl=(), io0=None):
     def go():
         from ..msgs import Msg
-        spec = impl.make_spec("bothd", impl.struct_text(text, struct), vs, semantics=SEMS[sem], io=io, struct=struct, extra_decl=extra_decl)
+        spec = impl.make_spec("bothd", impl.struct_text(text, struct), vs, semantics=SEMS[sem], io=io if io0 is None else io0, struct=struct,
+                              extra_decl=extra_decl)
         spec.parse()
+        if io0 is not None:
+            # the io assignment is revised on the parsed object and the specification parsed again: the assignment in force at
+            # the second parse() is the one that counts (an undeclared variable is an output)
+            for v in vs:
+                spec.set_var_io_type(v, io.get(v, "output"))
+            spec.parse()
         if mon == "offd":
             ds = {"time": list(range(n))}
             ds.update({v: impl.wrap(data[v], v in struct) for v in vs})
@@ -81,7 +88,15 @@ def gen_case(rng):
             io = {v: rng.choice(["input", "output"]) for v in vs if rng.random() < 0.9}
             return {"monitor": mon, "f": f, "vars": vs, "io": io, "sem": sem, "n": n, "data": F.gen_trace(rng, vs, n), "struct": [],
                     "text": "p0 = %s;\nout = %s" % (F.to_text(t), F.to_text(body)), "extra_decl": ["p0"]}
-    return {"monitor": mon, "f": f, "vars": vs, "io": io, "sem": sem, "n": n, "data": F.gen_trace(rng, vs, n), "struct": struct}
+    case = {"monitor": mon, "f": f, "vars": vs, "io": io, "sem": sem, "n": n, "data": F.gen_trace(rng, vs, n), "struct": struct}
+    if mon in ("offd", "ond") and rng.random() < 0.3:
+        # re-parse variant: ONE specification object is parsed under a first io assignment, the assignment is revised with
+        # set_var_io_type() and the object parsed again before it is evaluated; at least one variable changes sides
+        io0 = {v: rng.choice(["input", "output"]) for v in vs if rng.random() < 0.8}
+        w = rng.choice(vs)
+        io0[w] = "input" if io.get(w, "output") == "output" else "output"
+        case["io0"] = io0
+    return case
 
 
 def model(cases):
@@ -113,11 +128,16 @@ def check_case(ctx, case, m):
     struct = case.get("struct") or []
     if struct:
         ctx.count("struct-typed variables")
-    out = run_impl(mon, text, vs, data, n, case["sem"], case["io"], struct, extra)
-    rep = {"text": case.get("text"), "extra_decl": list(extra), "struct": struct, "monitor": mon, "semantics": case["sem"], "io": case["io"], "spec": text, "formula": F.to_proto(f), "data": data, "n": n,
+    io0, shown = case.get("io0"), text
+    if io0 is not None:
+        ctx.count("re-parsed after set_var_io_type")
+    out = run_impl(mon, text, vs, data, n, case["sem"], case["io"], struct, extra, io0=io0)
+    if io0 is not None:
+        shown = text + "   [parsed with io=%r, then set_var_io_type to the io given and parsed again]" % (io0,)
+    rep = {"io0": io0, "text": case.get("text"), "extra_decl": list(extra), "struct": struct, "monitor": mon, "semantics": case["sem"], "io": case["io"], "spec": text, "formula": F.to_proto(f), "data": data, "n": n,
            "transformed": F.to_proto(case["tf"]), "impl": out, "model": m}
     if out[0] != "ok":
-        return Violation("%s monitor, %s semantics, io=%r raised %r: %s" % (mon, case["sem"], case["io"], out[1:], text), rep, stream="ia"), None
+        return Violation("%s monitor, %s semantics, io=%r raised %r: %s" % (mon, case["sem"], case["io"], out[1:], shown), rep, stream="ia"), None
     vals = out[1]
     std = run_impl(mon, text, vs, data, n, "standard", {}, struct, extra)
     ctx.evaluations += 1
@@ -129,20 +149,20 @@ def check_case(ctx, case, m):
     # STANDARD: the io declarations have no effect
     if case["sem"] == "standard":
         if std[0] != "ok" or not same_vals(vals, std[1]):
-            return Violation("STANDARD semantics depends on the io declarations %r: %r vs %r: %s" % (case["io"], vals, std[1:], text), rep,
+            return Violation("STANDARD semantics depends on the io declarations %r: %r vs %r: %s" % (case["io"], vals, std[1:], shown), rep,
                              stream="ia/standard"), None
     # all predicates sensitive -> same as standard
     if case["tf"] == f and std[0] == "ok" and not same_vals(vals, std[1]):
         return Violation("%s semantics, io=%r: no predicate is insensitive but the result differs from the standard one: %s"
-                         % (case["sem"], case["io"], text), rep, stream="ia/sensitive"), None
+                         % (case["sem"], case["io"], shown), rep, stream="ia/sensitive"), None
     if m[0] != "ok" or not common.same_nums(vals, m[1]):
         # the model is the declarative statement of the property: a difference is a violation of C06
         i = next((j for j in range(n) if m[0] != "ok" or j >= len(m[1]) or not common.num_eq(vals[j], m[1][j])), 0)
         return Violation("%s monitor, %s semantics, io=%r: value at %d is %r; standard evaluation with insensitive predicates "
-                         "replaced gives %r: %s" % (mon, case["sem"], case["io"], i, vals[i], m[1][i] if m[0] == "ok" else m, text),
+                         "replaced gives %r: %s" % (mon, case["sem"], case["io"], i, vals[i], m[1][i] if m[0] == "ok" else m, shown),
                          rep, stream="ia"), None
     if not same_vals(vals, m[1]):
-        return None, Violation("mirror differs bit-wise (signed zero) from the implementation: " + text, rep, failing_input=False,
+        return None, Violation("mirror differs bit-wise (signed zero) from the implementation: " + shown, rep, failing_input=False,
                                stream="ia/mirror")
     return None, None
 
@@ -177,6 +197,8 @@ def replay(ctx, obj):
     c = {"monitor": obj["monitor"], "f": f, "vars": F.variables(f) or ["a"], "io": obj["io"], "sem": obj["semantics"], "n": obj["n"],
          "data": {k: [float(x) for x in v] for k, v in obj["data"].items()}, "struct": obj.get("struct") or [],
          "text": obj.get("text"), "extra_decl": obj.get("extra_decl") or []}
+    if obj.get("io0") is not None:
+        c["io0"] = obj["io0"]
     m, = model([c])
     v, d = check_case(Ctx(ctx.id, ctx.tier, ctx.seed), c, m)
     return (v is None), (v.what if v else "IA result agrees with the model on the replayed case")
